@@ -1,11 +1,37 @@
 """C04 write/read round trip.
-Suites: paths (Base/Paths.v vs core/util.py) ; serial (added below when built)."""
+
+Suites
+  paths   Base/Paths.v vs core/util.py (abs_to_rel / rel_to_abs)
+  serial  (P) on the real library: generated models (harness/c04gen.py) are described, written to a
+          directory and a zip archive, read back, chained; describe-before == describe-after, writing
+          alters nothing but path, zip members == directory files, cells return the same values
+  zipfs   (T) Serial/ZipFS.v + Serial/Layout.v: the recorded sequence of ziputil.write_file calls of the real
+          writer == the model's write plan of the described model; pairwise distinct; the DirFS / ZipFS models
+          applied to the recorded writes give exactly the directory listing / the archive member list
+  codec   (T) Serial/Codec.v: every written __init__.py, parsed with `ast` into abstract statements, equals
+          `encode` of the described model, and `decode` of it gives the description back
+  lexer   (T) Serial/Lexer.v: lex_triple on generated documentation strings == Python's own reading
+Known defects of the pinned tree: triggers avoided by the generator (see c04gen.py), witnesses in
+corpus/C04/finding_*.json, ledger lines in findings.d/C04.txt."""
+import os, re, json, glob, collections
 import fw
-from fw import cstr, clist, ctuple, cnat, Outcome
+import c04gen
+from fw import cstr, clist, ctuple, cnat, cN, cbool, copt, Outcome
 
 NAMES = ["a", "b", "S", "S2", "aaa", "x_1", "B"]
+CORPUS = os.path.join(fw.VERIF, "corpus", "C04")
+EXTRA_MODS = []
+TRUSTED = ["CPython: tokenizer/ast/asttokens (formula and statement text), pickle (value fidelity), zipfile, pathlib/os "
+           "(modelled by Serial/ZipFS.v only as path -> content maps)",
+           "harness: describe() in harness/drivers/serial.py (public API walk) and the ast -> statement abstraction in "
+           "harness/c04codec.py"]
+ASSUMPTIONS = ["models are built from the generated vocabulary; triggers of recorded defects D1 D8 D9 D24 D33-D37 are avoided",
+               "IOSpec-backed references (pandas/Excel files) are not generated (C18)"]
 
 
+# ==========================================================================
+# suite: paths
+# ==========================================================================
 def gen_paths(rng, n):
     cases = []
     for _ in range(n):
@@ -63,14 +89,293 @@ def suite_paths(tier, rng, out):
                                  "ns_len": {k: sum(1 for c in cases if len(c["ns"]) == k) for k in range(1, 6)}}
 
 
+# ==========================================================================
+# suite: serial  -- the property oracle (P) on the implementation
+# ==========================================================================
+def strip(d):
+    """drop the dict-order observations (the property speaks about sets of members)"""
+    if isinstance(d, dict):
+        return {k: strip(v) for k, v in d.items() if not k.endswith("_order")}
+    if isinstance(d, list):
+        return [strip(x) for x in d]
+    return d
+
+
+def diff(a, b, path=""):
+    if type(a) != type(b):
+        return [(path, a, b)]
+    if isinstance(a, dict):
+        o = []
+        for k in sorted(set(a) | set(b)):
+            if k not in a:
+                o.append((path + "/" + k, "<missing>", b[k]))
+            elif k not in b:
+                o.append((path + "/" + k, a[k], "<missing>"))
+            else:
+                o += diff(a[k], b[k], path + "/" + k)
+        return o
+    if isinstance(a, list):
+        if len(a) != len(b):
+            return [(path, a, b)]
+        o = []
+        for i, (x, y) in enumerate(zip(a, b)):
+            o += diff(x, y, path + "[%d]" % i)
+        return o
+    return [] if a == b else [(path, a, b)]
+
+
+def fmt_diff(dd, n=3):
+    return "; ".join("%s: %s -> %s" % (p, json.dumps(a)[:160], json.dumps(b)[:160]) for p, a, b in dd[:n])
+
+
+_IDREF = re.compile(r'\("(Pickle|IOSpec)", (\d+)(?:, (\d+))?\)')
+
+
+def norm_text(path, text):
+    """replace object ids (memory addresses written by the serializer) by first-occurrence indices"""
+    table = {}
+
+    def idx(s):
+        return "#%d" % table.setdefault(s, len(table))
+    if "/_data/" in "/" + path and not path.endswith("__init__.py"):
+        return re.sub(r"\b\d+\b", lambda m: idx(m.group(0)), text)
+    return _IDREF.sub(lambda m: '("%s", %s)' % (m.group(1), ", ".join(idx(g) for g in m.groups()[1:] if g)), text)
+
+
+STRUCT_OPS = ("space", "add_bases", "ref", "cells")
+
+
+def rejected_struct(case, r):
+    return [(o["op"], s.split(":")[0]) for o, s in zip(case["ops"], r.get("ops", [])) if s != "ok" and o["op"] in STRUCT_OPS]
+
+
+def oracle(case, r):
+    """the property evaluated on what the implementation did; returns a list of failure texts"""
+    f = []
+    if "crash" in r:
+        return ["driver crashed while building/describing: " + r["crash"][:400]]
+    for k, what in (("wdir_err", "write_model raised"), ("wzip_err", "zip_model raised")):
+        if k in r:
+            f.append("%s: %s" % (what, r[k][:200]))
+    dA, dB, dC = strip(r["dA"]), strip(r["dB"]), strip(r["dC"])
+    if dA != dB:
+        f.append("writing to a directory altered the model: " + fmt_diff(diff(dA, dB)))
+    if dB != dC:
+        f.append("writing to a zip altered the model: " + fmt_diff(diff(dB, dC)))
+    if "wdir_err" not in r and r["path_after_dir"] != r["expect_paths"][0]:
+        f.append("model.path after write_model is %r" % r["path_after_dir"])
+    if "wzip_err" not in r and r["path_after_zip"] != r["expect_paths"][1]:
+        f.append("model.path after zip_model is %r" % r["path_after_zip"])
+    d0 = strip(r["d0"])
+    for k, what in (("rdir_err", "directory"), ("rzip_err", "zip")):
+        if k in r:
+            f.append("a model written without error cannot be read back from the %s: %s" % (what, r[k][:200]))
+    for k, what in (("d_dir", "read from directory"), ("d_zip", "read from zip"),
+                    ("d_dir_after_probe", "read from directory, after evaluating"),
+                    ("d_chain_mid", "dir -> zip chain"), ("d_chain", "dir -> zip -> dir chain")):
+        if k in r:
+            dd = diff(d0, strip(r[k]))
+            if dd:
+                f.append("description differs (%s): %s" % (what, fmt_diff(dd)))
+    for k, what in (("v_dir", "directory"), ("v_zip", "zip"), ("v_chain", "chain")):
+        if k in r and r[k] != r["v0"]:
+            bad = [(p, a, b) for p, a, b in zip(case["probes"], r["v0"], r[k]) if a != b]
+            f.append("cells return other values after reading from the %s: %s" % (what, json.dumps(bad[:2])[:400]))
+    if "ls_dir" in r and "ls_zip" in r:
+        a = dict(map(tuple, r["ls_dir"])); b = dict(map(tuple, r["ls_zip"]))
+        if len(b) != len(r["ls_zip"]):
+            f.append("zip archive has duplicate members")
+        if set(a) != set(b):
+            f.append("zip members != directory files: only in dir %s, only in zip %s" % (sorted(set(a) - set(b)), sorted(set(b) - set(a))))
+        else:
+            df = [k for k in a if a[k] != b[k] and not k.endswith(".pickle")]
+            if df:
+                f.append("zip member content != directory file content: %s" % df)
+    if "chain_err" in r:
+        f.append("write-read-write chain raised: " + r["chain_err"][:300])
+    elif case.get("chain") and "ls_dir" in r and "d_dir" in r:
+        # an ItemSpace created by an evaluation makes the writer emit an (empty) _dynamic_inputs file:
+        # file sets are compared modulo those cache-dependent empty files
+        def core(names_):
+            return sorted(x for x in names_ if not x.endswith("/_data/_dynamic_inputs"))
+        dyn1 = {p_: t for p_, t in r.get("texts", {}).items() if p_.endswith("/_data/_dynamic_inputs") and t.strip()}
+        dyn3 = {p_: t for p_, t in r.get("texts3", {}).items() if p_.endswith("/_data/_dynamic_inputs") and t.strip()}
+        if set(dyn1) != set(dyn3):
+            f.append("chain: non-empty _dynamic_inputs files differ: %s" % sorted(set(dyn1) ^ set(dyn3)))
+        names = core(x[0] for x in r["ls_dir"])
+        for k in ("ls_zip2", "ls_dir3"):
+            if core(x[0] for x in r.get(k, [])) != names:
+                f.append("chain: %s file set differs from the first directory: %s" % (k, sorted(set(core(x[0] for x in r.get(k, []))) ^ set(names))))
+        if core(r.get("ls_dir3b", [])) != names:
+            f.append("writing twice to the same directory changes the file set")
+        t1 = {p: norm_text(p, t) for p, t in r.get("texts", {}).items() if not (p.endswith("/_data/_dynamic_inputs") and not t.strip())}
+        t3 = {p: norm_text(p, t) for p, t in r.get("texts3", {}).items() if not (p.endswith("/_data/_dynamic_inputs") and not t.strip())}
+        bad = [p for p in sorted(set(t1) | set(t3)) if t1.get(p) != t3.get(p)]
+        if bad:
+            f.append("chain: text written by the third write differs from the first (ids normalised): %s" % bad[:3])
+    return f
+
+
+def script_of(case):
+    return ("# stand-alone reproducer: PYTHONPATH=/repo:/verif/harness python this.py\n"
+            "import json, subprocess, sys\ncase = json.loads(%r)\n"
+            "p = subprocess.run([sys.executable, '/verif/harness/drivers/serial.py'], input=json.dumps([case]), text=True, capture_output=True)\n"
+            "r = json.loads([l for l in p.stdout.splitlines() if l.startswith('@@RESULT ')][0][9:])[0]\n"
+            "sys.path.insert(0, '/verif/harness'); from props.C04 import oracle\nprint('\\n'.join(oracle(case, r)) or 'no failure')\n"
+            % json.dumps(case))
+
+
+def load_corpus():
+    ws, regress = [], []
+    for p in sorted(glob.glob(os.path.join(CORPUS, "*.json"))):
+        d = json.load(open(p))
+        (ws if os.path.basename(p).startswith("finding_") else regress).append(d)
+    return ws, regress
+
+
+def suite_serial(tier, rng, out, shared):
+    n = 260 if tier == "quick" else 5000
+    witnesses, regress = load_corpus()
+    cases = []
+    for i, w in enumerate(witnesses):
+        cases.append(dict(w["case"], id="w%d" % i, witness=w["key"]))
+    for i, c in enumerate(regress):
+        cases.append(dict(c["case"], id="r%d" % i))
+    nfix = len(cases)
+    filt = collections.Counter()
+    for i in range(n):
+        c = c04gen.gen_case(rng, i, avoid=True, big=(tier != "quick" and i % 3 == 0))
+        for k, v in c["filtered"].items():
+            filt[k] += v
+        c["lex"] = [rng.choice(c04gen.SAFE_DOCS + c04gen.UNSAFE_DOCS) for _ in range(2)] + [c04gen.random_doc(rng) for _ in range(6)]
+        cases.append(c)
+    res = fw.run_driver("serial", cases, chunk=max(1, min(40, (len(cases) + fw.JOBS - 1) // fw.JOBS)))
+    shared["cases"], shared["res"], shared["nfix"] = cases, res, nfix
+    # ---- witnesses of recorded defects
+    texts = {w["key"]: w["text"] for w in witnesses}
+    for c, r in zip(cases[:len(witnesses)], res[:len(witnesses)]):
+        fails = oracle(c, r)
+        fw.witness_result(out, "C04", c["witness"], bool(fails), texts[c["witness"]],
+                          {"case": c, "detail0": fails[:2], "script": script_of(c)})
+    # ---- corpus regressions + generated cases
+    seen = set()
+    feat = collections.Counter()
+    ok_cases = []
+    nrej = 0
+    for c, r in zip(cases[len(witnesses):], res[len(witnesses):]):
+        rej = rejected_struct(c, r)
+        if rej:
+            nrej += 1            # a rejected edit may leave a half-applied state (C11); not a C04 case
+            continue
+        fails = oracle(c, r)
+        out.evaluations += 1
+        for ft in c.get("features", []):
+            feat[ft] += 1
+        key = c04gen.canonical_key(c)
+        nontrivial = len(c["ops"]) >= 4 and any(o["op"] in ("cells", "ref") for o in c["ops"]) and "d_dir" in r and "d_zip" in r
+        if nontrivial and key not in seen:
+            seen.add(key)
+            out.distinct_nontrivial += 1
+        if fails:
+            out.p_failures.append({"case": c, "detail": " | ".join(fails)[:1500], "script": script_of(c)})
+        else:
+            ok_cases.append((c, r))
+    shared["ok"] = ok_cases
+    out.samples.append({"ops": cases[len(witnesses) + len(regress)]["ops"][:8], "probes": cases[len(witnesses) + len(regress)]["probes"][:3]})
+    out.distribution["serial"] = {"generated": n, "witnesses": len(witnesses), "corpus": len(regress),
+                                  "skipped_rejected_edit": nrej, "features": dict(sorted(feat.items())),
+                                  "chains": sum(1 for c in cases if c.get("chain")),
+                                  "defect_triggers_avoided": dict(filt),
+                                  "ops_per_case": round(sum(len(c["ops"]) for c in cases) / max(1, len(cases)), 1)}
+    out.notes.append("serial: generator avoids the triggers of D1 D8 D9 D24 D33 D34 D35 D36 D37 (counts in distribution.serial."
+                     "defect_triggers_avoided); %d generated cases skipped because an edit was rejected while building" % nrej)
+
+
+# ==========================================================================
+# suite: zipfs -- (T) Serial/ZipFS.v + Serial/Layout.v against the recorded writes
+# ==========================================================================
+def cpath(p):
+    return clist([cstr(x) for x in p.split("/")])
+
+
+def layout_of(d):
+    """the writer-relevant abstraction of a description (taken with caches, at write time)"""
+    pick = [False]
+
+    def ref_pickled(rd):
+        return rd["value"][0] not in ("lit", "obj", "module")
+
+    def dyn_has_inputs(items):
+        return bool(items)
+
+    def space(name, sd):
+        ins = [c for c in sd["cells_order"] if not sd["cells"][c]["derived"] and sd["cells"][c]["inputs"]]
+        if ins or dyn_has_inputs(sd["items"]):
+            pick[0] = True
+        if any(ref_pickled(rd) for rd in sd["refs"].values() if not rd["derived"]):
+            pick[0] = True
+        ch = [space(n, sd["spaces"][n]) for n in sd["spaces_order"]]
+        return "(SpaceL %s %s %s %s)" % (cstr(name), clist([cstr(c) for c in ins]), cbool(sd["n_items"] > 0), clist(ch))
+    if any(ref_pickled(rd) for rd in d["refs"].values()):
+        pick[0] = True
+    sps = [space(n, d["spaces"][n]) for n in d["spaces_order"]]
+    return clist(sps), cbool(pick[0])
+
+
+def suite_zipfs(tier, rng, out, shared):
+    terms, idx = [], []
+    for c, r in shared["ok"]:
+        if "ls_dir" not in r or "ls_zip" not in r:
+            continue
+        table = {}
+
+        def cid(h):
+            return cN(table.setdefault(h, len(table) + 1))
+        sp, pk = layout_of(r["dB"])
+        wd = clist([ctuple([cpath(e["path"]), cid(e["h"])]) for e in r["log_dir"]])
+        wz = clist([ctuple([cpath(e["path"]), cid(e["h"])]) for e in r["log_zip"]])
+        ld = clist([ctuple([cpath(p), cid(h)]) for p, h in r["ls_dir"]])
+        lz = clist([ctuple([cpath(p), cid(h)]) for p, h in r["ls_zip"]])
+        terms.append(ctuple([sp, pk, wd, wz, ld, lz]))
+        idx.append((c, r))
+    bad = fw.run_coq_cases("C04zipfs", ["Serial.ZipFS", "Serial.Layout"], "layout_case", "check_layout", terms, shard=120)
+    for i in bad:
+        c, r = idx[i]
+        out.tie_mismatches.append({"case": c, "detail": "Serial/Layout.v write plan / ZipFS.v file maps disagree with the recorded writes "
+                                   "of ziputil.write_file or with the listings",
+                                   "impl": {"log_dir": [e["path"] for e in r["log_dir"]], "log_zip": [e["path"] for e in r["log_zip"]],
+                                            "ls_dir": [p for p, _ in r["ls_dir"]], "ls_zip": [p for p, _ in r["ls_zip"]]},
+                                   "model": fw.coq_show("C04zipfs", ["Serial.ZipFS", "Serial.Layout"],
+                                                        "write_plan %s %s" % layout_of(r["dB"]))[-1500:]})
+    out.traces_validated += len(terms) - len(bad)
+    out.distribution["zipfs"] = {"cases": len(terms), "writes": sum(len(r["log_dir"]) for _, r in idx),
+                                 "with_data_files": sum(1 for _, r in idx if any("/_data/" in e["path"] for e in r["log_dir"]))}
+
+
+# ==========================================================================
 def run(tier, seed, rng):
     out = Outcome()
     out.rule = ("paths: random (target, namespace, relative name) triples over a name pool with string-prefix pairs; "
-                "non-trivial = target shares a proper prefix with the namespace; distinct by (target, namespace)")
+                "non-trivial = target shares a proper prefix with the namespace; distinct by (target, namespace). "
+                "serial: random model-building programs (spaces nested <= 3, bases at other levels, lambda/def cells, flags, docs, "
+                "literal/pickled/object references in 3 modes, inputs, ItemSpace inputs); non-trivial = >= 4 edits with a cells or "
+                "reference and both containers read back; distinct by the program text")
     suite_paths(tier, rng, out)
+    shared = {}
+    suite_serial(tier, rng, out, shared)
+    for name in ("suite_zipfs", "suite_codec", "suite_lexer"):
+        fn = globals().get(name)
+        if fn:
+            fn(tier, rng, out, shared)
     return out
 
 
 def replay(data):
-    print(data)
-    return 0
+    case = data.get("case")
+    if not case or "ops" not in case:
+        print(json.dumps(data, indent=1)[:3000])
+        return 0
+    r = fw.run_driver("serial", [case])[0]
+    fails = oracle(case, r)
+    print("\n".join(fails) or "no failure")
+    return 1 if fails else 0
